@@ -76,11 +76,32 @@ def handwritten():
     add(R(('requery', 'kids_all'), ('read', 1, 'x'), ('read', 2, 'x'), ('requery', 'select_all'), ('read', 1, 'x')), W(('write', 1, 'x', 2001)))
     add(R(('read', 1, 'x'), ('requery', 'select_r1'), ('read', 1, 'x')), W(('write', 1, 'x', 2001)), S('C', [('write', 1, 'x', 3001)]))
     add(R(('read', 1, 'x'), ('requery', 'select_r1'), ('read', 1, 'x'), immediate=True), W(('write', 1, 'x', 2001)))
+    # the collection is loaded by one read kind and observed by another
+    add(R(('coll', 1, 'kids', 'len'), ('coll', 1, 'kids', 'iter'), ('requery', 'kids_all'), ('coll', 1, 'kids', 'iter')), W(('movekid', 1, 2)))
+    add(R(('coll', 1, 'kids', 'bool'), ('coll', 1, 'kids', 'iter'), ('requery', 'kids_all'), ('coll', 1, 'kids', 'sorted')), W(('movekid', 2, None)))
+    add(R(('coll', 1, 'kids', 'load'), ('coll', 1, 'kids', 'copy'), ('requery', 'kids_all'), ('coll', 1, 'kids', 'list')), W(('movekid', 2, 2)))
+    add(R(('requery', 'prefetch_kids'), ('coll', 1, 'kids', 'iter'), ('requery', 'kids_all'), ('coll', 1, 'kids', 'iter'), ('coll', 1, 'kids', 'len')), W(('movekid', 1, 2)))
+    add(R(('coll', 1, 'kids', 'list'), ('requery', 'kids_all'), ('coll', 1, 'kids', 'in:1'), ('coll', 1, 'kids', 'len')), W(('movekid', 1, 2)))
+    add(R(('coll', 1, 'kids', 'in:1'), ('requery', 'kids_all'), ('coll', 1, 'kids', 'in:1'), ('kattr', 1, 'parent')), W(('movekid', 1, None)))
+    add(R(('coll', 1, 'kids', 'len'), ('coll', 1, 'kids', 'sorted'), ('kattr', 2, 'parent'), ('requery', 'kids_all'), ('kattr', 2, 'parent')), W(('movekid', 2, 2)))
+    add(R(('coll', 2, 'tags', 'bool'), ('coll', 2, 'tags', 'sorted'), ('requery', 'tags_all'), ('coll', 2, 'tags', 'in:2')), W(('rmtag', 2, 2)))
+    # item attribute values observed through attribute lifting on the collection
+    add(R(('lift', 1, 'kids', 'w'), ('requery', 'kids_all'), ('lift', 1, 'kids', 'w')), W(('setw', 1, 2001)))
+    add(R(('lift', 1, 'kids', 'w'), ('requery', 'kids_all'), ('kattr', 2, 'w'), ('lift', 1, 'kids', 'w')), W(('setw', 2, 2001)))
+    add(R(('coll', 1, 'kids', 'len'), ('lift', 1, 'kids', 'w'), ('requery', 'kids_all'), ('lift', 1, 'kids', 'w')), W(('movekid', 1, 2), ('setw', 2, 2001)))
+    add(R(('lift', 2, 'kids', 'w'), ('requery', 'prefetch_kids'), ('requery', 'kids_all'), ('lift', 2, 'kids', 'w')), W(('setw', 3, 2001)))
+    # the reader writes (without having read), observes its value, commits in the middle and goes on
+    add(R(('write', 1, 'x', 1001), ('read', 1, 'x'), ('commit',), ('requery', 'select_r1'), ('read', 1, 'x')), W(('write', 1, 'x', 2001)))
+    add(R(('write', 1, 'x', 1001), ('read', 1, 'x'), ('flush',), ('commit',), ('requery', 'select_all'), ('read', 1, 'x')), W(('inc', 1, 'x')))
+    add(R(('read', 1, 'y'), ('write', 1, 'x', 1001), ('commit',), ('read', 1, 'x'), ('requery', 'by_sql'), ('read', 1, 'x'), ('read', 1, 'y')),
+        W(('write', 1, 'x', 2001), ('write', 1, 'y', 2002)))
+    add(R(('inc', 1, 'z'), ('read', 1, 'z'), ('commit',), ('requery', 'select_r1'), ('read', 1, 'z')), W(('inc', 1, 'z')))
+    add(R(('write', 2, 'y', 1001), ('commit',), ('read', 2, 'y'), ('requery', 'select_r2'), ('read', 2, 'y')), W(('write', 2, 'y', 2001)))
     return sets
 
 
 OBS_ATTRS = ('x', 'y', 'z', 'n', 'f', 'v')
-PROVOKERS = [('requery', 'select_all'), ('requery', 'select_r1'), ('requery', 'select_r2'), ('requery', 'get_x'),
+PROVOKERS = [('requery', 'prefetch_kids'), ('requery', 'select_all'), ('requery', 'select_r1'), ('requery', 'select_r2'), ('requery', 'get_x'),
              ('requery', 'kids_all'), ('requery', 'by_sql'), ('requery', 'tags_all'), ('load', 1), ('load', 2)]
 
 
@@ -95,13 +116,24 @@ def random_reader(rng):
         elif k < 0.55:
             op = ('read', 1 if rng.random() < 0.75 else 2, rng.choice(OBS_ATTRS)); ops.append(op); keys.append(op)
         elif k < 0.68:
-            op = ('coll', rng.choice((1, 1, 2)), rng.choice(('kids', 'tags')), rng.choice(('iter', 'iter', 'len', 'count', 'is_empty')))
-            ops.append(op); keys.append((op[0], op[1], op[2], rng.choice(('iter', 'len'))))
+            c = rng.choice(('kids', 'kids', 'tags'))
+            how = rng.choice(('iter', 'iter', 'len', 'count', 'is_empty', 'bool', 'load', 'sorted', 'list', 'copy', 'in:%d' % rng.choice((1, 2))))
+            op = ('coll', rng.choice((1, 1, 2)), c, how)
+            ops.append(op); keys.append((op[0], op[1], op[2], rng.choice(('iter', 'len', 'sorted', 'copy'))))
+            if c == 'kids' and rng.random() < 0.3:
+                op = ('lift', op[1], 'kids', 'w'); ops.append(op); keys.append(op)
         elif k < 0.76:
             op = ('kattr', rng.choice((1, 2, 3, 4)), rng.choice(('parent', 'w'))); ops.append(op); keys.append(op)
         else:
             ops.append(rng.choice(PROVOKERS))
     if keys: ops.append(rng.choice(keys))
+    if rng.random() < 0.3:
+        # a reader that also writes: blind write, observe, commit in the middle, go on reading
+        a = rng.choice(('x', 'y', 'z')); r = rng.choice((1, 1, 2))
+        pre = [('write', r, a, 1001) if rng.random() < 0.7 else ('inc', r, a), ('read', r, a)]
+        if rng.random() < 0.5: pre.append(('flush',))
+        pre.append(('commit',))
+        ops = pre + ops + [('read', r, a)]
     return S('A', ops)
 
 
@@ -131,29 +163,56 @@ def coll_view(final, r, c):
     return sorted(t for (rr, t) in final['L'] if rr == r)
 
 
+def own_write_keys(op):
+    """Observation keys whose value the reader changes itself with this op (their anchors start afresh)."""
+    if op[0] in ('write', 'inc'): return [('R', op[1], op[2])]
+    if op[0] == 'copy': return [('R', op[1], op[2])]
+    return []
+
+
 def judge_reader(ctx, sp, run, res, wit0):
-    """Compare the reader's observations key by key."""
+    """Compare the reader's observations key by key, in program order."""
     anchors = {}          # key -> (kind, value, step)
-    for step, key, val in run.obs:
-        if key[0] == 'raw': continue
+    ops = run.sess['ops']
+    by_step = {}
+    for ob in run.obs: by_step.setdefault(ob[0], []).append(ob)
+    for step in range(len(ops)):
+        for ob in by_step.get(step, ()):
+            judge_obs(ctx, res, wit0, anchors, ob)
+        for key in own_write_keys(ops[step]):
+            if step < run.steps_done: anchors.pop(key, None)      # the reader's own write: later reads start a new anchor
+
+
+def judge_obs(ctx, res, wit0, anchors, ob):
+        step, key, val = ob[:3]
+        if key[0] in ('raw', 'find'): return
         if val[0] != 'val':
-            ctx.count('obs.raised.' + val[1]); continue
+            ctx.count('obs.raised.' + val[1]); return
         if key[0] == 'R' and len(key) == 3 and key[2] == 'v':
-            ctx.count('obs.volatile_exempt'); continue
-        if len(key) == 4:                                   # collection observation
+            ctx.count('obs.volatile_exempt'); return
+        if len(ob) > 3: ctx.count('obs.member_reference_through_collection')
+        if len(key) == 5 and key[3] == 'in':                # membership test of one item
+            a = anchors.get(key[:3])
+            if a is not None and a[0] == 'items':
+                ctx.count('obs.repeated'); ctx.count('obs.repeated_collection')
+                if val[1] != (key[4] in a[1]):
+                    ctx.violation(dict(wit0, key=list(key), first=list(a), later=[val[1], step]), 'repeated-collection-read-changed')
+            key = tuple(key)                                # and the membership answer itself is a value that must stay
+        elif len(key) == 4 and not str(key[3]).startswith('lift:'):      # collection observation
             ckey = key[:3]; kind = key[3]; v = val[1]
             a = anchors.get(ckey)
             if a is None:
                 if kind == 'items': anchors[ckey] = ('items', v, step)
                 elif kind == 'len': anchors[ckey] = ('len', v, step)
                 else: ctx.count('obs.collection_not_anchoring')
-                continue
+                return
             ctx.count('obs.repeated'); ctx.count('obs.repeated_collection')
             akind, av, astep = a
             n0 = len(av) if akind == 'items' else av
             if kind == 'items':
                 ok = (v == av) if akind == 'items' else (len(v) == n0)
             elif kind in ('len', 'count'): ok = (v == n0)
+            elif kind == 'bool': ok = (v == (n0 != 0))
             else: ok = (v == (n0 == 0))
             if ok:
                 if akind == 'len' and kind == 'items': anchors[ckey] = ('items', v, astep)
@@ -165,26 +224,29 @@ def judge_reader(ctx, sp, run, res, wit0):
                 # known shape: one-to-many collection whose anchor is a len() observation (len() fully loads the
                 # collection but, unlike iteration, does not mark the children's reference as read) and the later
                 # observation shows FEWER items
-                removed = False
                 fewer = key[2] == 'kids' and akind == 'len' and (
-                    (kind in ('len', 'count') and v < n0) or (kind == 'items' and len(v) < n0) or (kind == 'is_empty' and v is True))
-                if removed or fewer:
+                    (kind in ('len', 'count') and v < n0) or (kind == 'items' and len(v) < n0)
+                    or (kind == 'is_empty' and v is True) or (kind == 'bool' and v is False))
+                if fewer:
                     ctx.count('obs.known_item_removed')
                     ctx.finding(F_DISAPPEAR, w)
                 else:
                     ctx.violation(w, 'repeated-collection-read-changed')
-            continue
+            return
         a = anchors.get(key)
         if a is None:
-            anchors[key] = ('val', val[1], step); continue
+            anchors[key] = ('val', val[1], step); return
         ctx.count('obs.repeated'); ctx.count('obs.repeated_attr')
+        if len(key) == 4: ctx.count('obs.repeated_lifted')
         if val[1] == a[1]:
             truth = None
-            if key[0] == 'R' and key[1] in res.final['R']: truth = res.final['R'][key[1]][key[2]]
+            if key[0] == 'R' and len(key) == 3 and key[1] in res.final['R']: truth = res.final['R'][key[1]][key[2]]
             elif key[0] == 'K' and key[1] in res.final['K']: truth = res.final['K'][key[1]][0 if key[2] == 'parent' else 1]
+            else: truth = a[1]
             if truth != a[1]: ctx.count('obs.stale_but_stable')
         else:
-            ctx.violation(dict(wit0, key=list(key), first=[a[1], a[2]], later=[val[1], step]), 'repeated-attribute-read-changed')
+            ctx.violation(dict(wit0, key=list(key), first=[a[1], a[2]], later=[val[1], step],
+                               via='collection' if len(ob) > 3 else 'direct'), 'repeated-attribute-read-changed')
 
 
 def judge(ctx, sp, sessions, res, desc):
@@ -216,6 +278,7 @@ def writer_committed_inside(res):
 
 
 def explore(ctx, model, sp, sessions, kind, key, stmt_samples, max_enum=2000):
+    if ctx.tier == 'quick': max_enum = 400          # quick: larger interleaving spaces are sampled (time budget)
     from vlib import sched
     names = [s['name'] for s in sessions]
     counts = [sp.n_steps(s) for s in sessions]
@@ -224,10 +287,10 @@ def explore(ctx, model, sp, sessions, kind, key, stmt_samples, max_enum=2000):
     if total <= max_enum:
         seqs = list(sched.interleavings(counts)); ctx.count('sets.enumerated_exhaustively')
     else:
-        seqs = sched.sample_interleavings(counts, 250, rng); ctx.count('sets.sampled')
+        seqs = sched.sample_interleavings(counts, 150 if ctx.tier == 'quick' else 250, rng); ctx.count('sets.sampled')
     progfp = [[s['name'], s['ops'], sorted(s['opts'].items())] for s in sessions]
-    keys_twice = len([1 for s in sessions if s['name'] == 'A' for _ in [0]
-                      if len(s['ops']) != len(set(o for o in s['ops'] if o[0] in ('read', 'coll', 'kattr')))]) > 0
+    rk = [(o[0], o[1], o[2]) for s in sessions if s['name'] == 'A' for o in s['ops'] if o[0] in ('read', 'coll', 'kattr', 'lift')]
+    keys_twice = len(rk) != len(set(rk))
     plans = [('op', [names[i] for i in seq]) for seq in seqs] + [('stmt', j) for j in range(stmt_samples)]
     for level, p in plans:
         if level == 'op':
@@ -258,7 +321,7 @@ def run(ctx):
         if ctx.tier == 'quick':
             hw_sel = hw; nrand, stmt = 6, 4
         else:
-            core = [hw[0], hw[1], hw[2], hw[10], hw[16]]    # every shard: sets in which the loud outcome certainly occurs
+            core = [hw[0], hw[1], hw[2], hw[10], hw[16], hw[26], hw[34], hw[38]]    # every shard: sets in which the loud outcome certainly occurs
             hw_sel = core + [h for i, h in enumerate(hw) if i % ctx.nshards == ctx.shard and h not in core]
             nrand, stmt = 16, 6
         for sessions in hw_sel:
